@@ -8,8 +8,10 @@
   the deterministic scheduler; `C11.step` is what the driver replays.
 -/
 import Upnp.Lemmas.C11Sched
+set_option linter.unusedSectionVars false
 namespace Upnp.C11
 open Upnp PyDict Upnp.C09 Upnp.C10
+variable [FloatOracle]
 
 /-- **C11, main theorem.**  For every schedule of the external events — subscribe calls started, NOTIFYs
     arriving for any SID with any headers and property sets, SUBSCRIBE responses of any kind arriving, in any
@@ -19,7 +21,7 @@ open Upnp PyDict Upnp.C09 Upnp.C10
     after every event every variable of every service is absent if no NOTIFY for the SID granted to that
     service carried it and otherwise holds the value of the latest such NOTIFY whose text is valid — whether
     that NOTIFY arrived before or after the response. -/
-theorem c11_schedules (cfg : Cfg) (decls : List (List Decl)) (hd : ∀ ds ∈ decls, declsWF ds) (evs : List Ev) :
+theorem c11_schedules (cfg : Cfg) (decls : List (List Var)) (hd : ∀ ds ∈ decls, declsWF ds) (evs : List Ev) :
     ok decls (modelTrace cfg (initSt decls) evs 0) = true :=
   schedules_from cfg decls hd evs _ _ 0 (inv_init decls)
 
@@ -27,13 +29,29 @@ end Upnp.C11
 
 namespace Upnp.C11
 open Upnp PyDict Upnp.C09 Upnp.C10
+variable [FloatOracle]
+
+/-- the driver's diagnostic walk is the judge: a trace is accepted iff no observation is reported -/
+theorem ok_iff_no_first_bad (decls : List (List Var)) (js : JS) (l : List Obs) (i : Nat) :
+    okFrom decls js l = (firstBadFrom decls js l i).isNone := by
+  induction l generalizing js i with
+  | nil => rfl
+  | cons o r ih =>
+    simp only [okFrom, firstBadFrom]
+    by_cases hs : evInScope js o.ev = true
+    · simp only [hs, if_true]
+      by_cases h : (outOk o && valsOk decls (advance js o.ev) o.vals && cbsOk decls (advance js o.ev) o.cbs) = true
+      · simp only [h, if_true, Bool.true_and]; exact ih _ _
+      · simp [h]
+    · simp [hs]
 
 /-- **Each early NOTIFY is answered 200**: whatever the handler's state (SID routed, not yet routed, never
     routed), a NOTIFY with valid headers is answered 200. -/
-theorem early_notify_200 (h : Handler) (n : Notify) (tick : Nat) (hk : hdrsOk n.hdrs = true) :
+theorem early_notify_200 (h : Handler) (n : Notify) (tick : Nat) (hk : hdrsOk n.hdrs = true)
+    (hm : n.malformed = false) :
     (handleNotify h n tick).2 = .status 200 := by
   obtain ⟨sid, hsid⟩ := hdrsOk_sid hk
-  rw [handleNotify_ok h n tick hk sid hsid]
+  rw [handleNotify_ok h n tick hk sid hsid hm]
   cases get? h.rt sid <;> rfl
 
 /-- **No loss**: when the response granting SID `x` to service `svc` arrives, the whole backlog of `x` —
@@ -41,7 +59,7 @@ theorem early_notify_200 (h : Handler) (n : Notify) (tick : Nat) (hk : hdrsOk n.
     arrived after the subscribe call returned; the call returns the SID; the backlog entry is gone. -/
 theorem no_loss (h : Handler) (svc : Nat) (t : Int) (x : Str) (th : Option Str) (tick : Nat)
     (hs : (grantedTimeout th 0).isSome = true)
-    (hitems : ∀ n ∈ (get? h.backlog x).getD [], hdrsOk n.hdrs = true ∧ n.hdrs.sid = some x) :
+    (hitems : ∀ n ∈ (get? h.backlog x).getD [], hdrsOk n.hdrs = true ∧ n.hdrs.sid = some x ∧ n.malformed = false) :
     ∃ g, finishSubscribe h svc t (.resp 200 (some x) th) tick =
       ((⟨PyDict.set h.rt x svc, erase h.backlog x,
          modifyAt h.svcs svc fun sv =>
@@ -50,7 +68,8 @@ theorem no_loss (h : Handler) (svc : Nat) (t : Int) (x : Str) (th : Option Str) 
   obtain ⟨g, hfin⟩ := subscribeFinish_grant h.rt svc t x th hs
   refine ⟨g, ?_⟩
   have := replay_spec { h with rt := PyDict.set h.rt x svc } x svc (get?_set_self _ _ _) _ hitems tick
-  simp only [finishSubscribe, hfin, this]
+  have hE := replayE_eq { h with rt := PyDict.set h.rt x svc } x svc (get?_set_self _ _ _) _ hitems tick
+  simp only [finishSubscribe, hfin, hE, this]
 
 /-- **Early NOTIFYs for SIDs that are never granted affect no service**: as long as no response grants a
     SID, every service stays exactly as it was, whatever NOTIFYs arrive. -/
@@ -65,7 +84,7 @@ theorem ungranted_inert (cfg : Cfg) (evs : List Ev) (s : St) (k : Nat) (hrt : s.
       cases e with
       | start svc t => simp only [step]; split <;> exact ⟨rfl, hrt⟩
       | notify n =>
-        simp only [step, handleNotify]
+        simp only [step, handleNotify_eq]
         split
         · exact ⟨rfl, hrt⟩
         · split
@@ -87,21 +106,29 @@ theorem ungranted_inert (cfg : Cfg) (evs : List Ev) (s : St) (k : Nat) (hrt : s.
     have := ih (step cfg s e k).1 (k + 1) hstep.2 (fun e' he' => hng e' (List.mem_cons_of_mem _ he'))
     exact ⟨this.1.trans hstep.1, this.2⟩
 
+end Upnp.C11
+
 /-! ### non-vacuity: the schedule of defect F11a -/
+namespace Upnp.C11.Ex
+open Upnp PyDict Upnp.C09 Upnp.C10 Upnp.C11
+
+local instance : FloatOracle := ⟨{ repr := fun _ => [], parse := fun _ => none, le := fun _ _ => false, eq := fun _ _ => false }⟩
 
 def exCfg : Cfg := ⟨['d'], ['c']⟩
-def exDecls : List (List Decl) :=
-  [[{ name := ['A'], dtype := ['u','i','2'], min := some 0, max := some 100 }, { name := ['B'], dtype := ['s','t','r','i','n','g'] }]]
+def exDecls : List (List Var) :=
+  [([{ name := ['A'], dtype := ['u','i','2'], range := some (some ['0'], some ['1','0','0']) },
+     { name := ['B'], dtype := ['s','t','r','i','n','g'] }] : List Decl).filterMap mkVar]
 def sid0 : Str := ['s','0']
 def okHdrs : NHeaders := ⟨some ntEvent, some ntsPropchange, some sid0⟩
 /-- NOTIFY{A=1,B=x}, NOTIFY{A=2}, a NOTIFY for a SID never granted, then the SUBSCRIBE response -/
 def exSchedule : List Ev :=
   [ .start 0 1800,
-    .notify ⟨okHdrs, [⟨true, [⟨[], ['A'], ['1']⟩, ⟨[], ['B'], ['x']⟩]⟩]⟩,
-    .notify ⟨okHdrs, [⟨true, [⟨[], ['A'], ['2']⟩]⟩]⟩,
-    .notify ⟨⟨some ntEvent, some ntsPropchange, some ['z']⟩, [⟨true, [⟨[], ['A'], ['9']⟩]⟩]⟩,
+    .notify ⟨okHdrs, [⟨true, [⟨[], ['A'], ['1']⟩, ⟨[], ['B'], ['x']⟩]⟩], false⟩,
+    .notify ⟨okHdrs, [⟨true, [⟨[], ['A'], ['2']⟩]⟩], false⟩,
+    .notify ⟨⟨some ntEvent, some ntsPropchange, some ['z']⟩, [⟨true, [⟨[], ['A'], ['9']⟩]⟩], false⟩,
     .respond 0 (.resp 200 (some sid0) none) ]
 
+example : (exDecls.map List.length) = [2] := by decide
 example : ∀ ds ∈ exDecls, declsWF ds := by
   intro ds hds
   simp only [exDecls, List.mem_singleton] at hds
@@ -110,13 +137,13 @@ example : ∀ ds ∈ exDecls, declsWF ds := by
 example : allInScope {} exSchedule = true := by decide
 example : ok exDecls (modelTrace exCfg (initSt exDecls) exSchedule 0) = true := by decide
 /-- after the response: A holds the value of the latest NOTIFY, B the value only the first one carried -/
-example : readVals (run exCfg (initSt exDecls) exSchedule 0) = [[(['A'], some (.vint 2)), (['B'], some (.vstr ['x']))]] := by
+example : readVals (run exCfg (initSt exDecls) exSchedule 0) = [[(['A'], .int 2), (['B'], .str ['x'])]] := by
   decide
 /-- the judge rejects the behaviour of the one-slot backlog (B lost) -/
 example : ok exDecls ((modelTrace exCfg (initSt exDecls) exSchedule 0).map fun o =>
-    { o with vals := o.vals.map fun l => l.map fun p => if p.1 = ['B'] then (p.1, none) else p }) = false := by decide
+    { o with vals := o.vals.map fun l => l.map fun p => if p.1 = ['B'] then (p.1, .none) else p }) = false := by decide
 /-- … and a callback made on behalf of a NOTIFY whose SID was never granted -/
 example : ok exDecls ((modelTrace exCfg (initSt exDecls) exSchedule 0).map fun o =>
     { o with cbs := o.cbs.map (· + 1) }) = false := by decide
 
-end Upnp.C11
+end Upnp.C11.Ex
